@@ -12,7 +12,10 @@ THEOREMS = [(M, "NQ.C18." + n) for n in [
     "recv_nonblock_empty", "recv_nonblock_nonempty", "lock_inv", "rendezvous_inv", "rendezvous_stable",
     "rendezvous", "callback_registered_while_open", "callback_inv", "f20_schedule_fixed",
     "queue_path_fifo", "paths_partition", "callback_matches_incarnation", "send_path_matches_incarnation",
-    "mixed_key_not_globally_fifo"]]
+    "mixed_key_not_globally_fifo",
+    "structured_roundtrip", "recvWires_eq_gotOf", "sent_results", "compile_noCb", "socket_exactly_once_fifo",
+    "socket_queue_path", "bsend_progress", "bsend_abort", "broadcast_delivers_each_once",
+    "broadcast_recv_nonblocking_one_round"]]
 TRANSLATORS = []
 LEVEL_TEXT = (
     "Lean theorems about a transition system of _SocketHub at shared-access granularity (one step = one source "
@@ -35,6 +38,13 @@ LEVEL_TEXT = (
     "set of enabled threads must be equal. Oracle: sent vs delivered sequences on the real hub, also in a "
     "model-free stream in which EVERY line of socket_hub.py (any function) is a scheduling point.")
 LEVEL_NOTE = (
+    "The socket layer (ThreadSocket send/recv/send_structured/recv_structured/*_silent/wait, connect/disconnect) and the "
+    "broadcast channel (send to all remotes, blocking recv polling them) are modelled in Model/ThreadSocket.lean as "
+    "programs of hub operations plus a local view of the outcome; wires are text | json(header, payload); theorems "
+    "socket_exactly_once_fifo, structured_roundtrip, sent_results, bsend_progress/bsend_abort, "
+    "broadcast_delivers_each_once; the lock-step tie compares SOCKET-LEVEL results (the harness sends socket-level "
+    "programs, the driver compiles them). F48 (fixed): BroadcastChannel.recv(block=False) now polls every socket once "
+    "(broadcast_recv_nonblocking_one_round). "
     "PARTIAL (labelled): below statement granularity (preemption inside a source line / inside C code), timeouts, "
     "sleep (set to 0), garbage-collection driven __del__ and dead WeakMethods are not modelled; atomicity of single "
     "set/dict/list operations under the GIL and of threading.Lock is assumed; one thread per endpoint (a key is "
@@ -114,6 +124,21 @@ def run(ctx):
         except H.Stuck as e:
             res.failures.append({"what": "harness could not drive the real hub: %s" % e, "kf": None,
                                  "input": {"progs": empty_progs, "schedule": sched}})
+    # ---- the socket layer and the broadcast channel (Model/ThreadSocket.lean): socket-level results vs the model
+    scen = H.socket_layer_scenarios()
+    for name, sp in scen.items():
+        pols = [H.preemptive_policy({}, [])] + [H.random_policy(rng, 200, 40) for _ in range(12 if ctx.thorough else 5)]
+        for pol in pols:
+            try:
+                corpus.append(H.run_case(sp, pol, (), max_steps=700))
+            except H.Stuck as e:
+                res.failures.append({"what": "harness could not drive the real hub: %s" % e, "kf": None,
+                                     "input": {"progs": sp}})
+    # ---- F48 (fixed): the witness of the non-blocking broadcast receive that never polled
+    try:
+        corpus.append(H.run_case(H.f48_case(), H.preemptive_policy({}, [])))
+    except H.Stuck as e:
+        res.failures.append({"what": "harness could not drive the real hub: %s" % e, "kf": None, "input": "f48_case"})
     for hp in H.history_pairs():   # the delivery mode of a key changes across a disconnect / reconnect
         for pol in (H.preemptive_policy({}, []), H.forced([0] * 12 + [1] * 40 + [0, 1] * 60)):
             try:
@@ -189,11 +214,11 @@ def run(ctx):
         rng.shuffle(pairs)
         core = [((0, ("s", "s"), 0), (1, (), 0)), ((1, ("s", "rn"), 1), (1, ("s",), 1)),
                 ((0, ("s", "s"), 1), (0, ("rb", "rn"), 0)), ((0, ("rn", "s"), 0), (0, ("rb", "s"), 1))]
-        core = [("progs", hp) for hp in H.history_pairs()] + core
+        core = [("progs", hp) for hp in H.history_pairs()] + [("progs", scen["bcast2"]), ("progs", scen["mixed"])] + core
         if ctx.thorough:
             budget, chosen = 420, core + pairs
         else:
-            budget, chosen = 25, core + pairs[:60]
+            budget, chosen = 18, core + pairs[:50]
         deadline = time.time() + budget
         chunks = [chosen[i::N_PROCS] for i in range(N_PROCS)]
         sums = pool.map(H.worker_explore, [(ch, 2, deadline) for ch in chunks])
